@@ -30,7 +30,7 @@ class DirectFace(Face):
         await self._closed
 
     def isLocalFace(self):
-        return True
+        return getattr(self, 'local', True)
 
     # harness side
     def deliver(self, wire: bytes):
